@@ -20,7 +20,7 @@ type LagMixedOutcome struct {
 	Jammed       bool // the pipeline towards the lagging member was full when the other senders acted
 	Desc         string
 	Received     map[string]int
-	Phases       map[string]float64 // seconds spent until the jam was seen / until everything had drained
+	Phases       map[string]float64 // seconds until the jam was seen / until everything had drained; whether the addressee was torn down during the stall
 }
 
 // LagMixedTrial: a member stops reading (for far less than any timeout)
@@ -32,15 +32,15 @@ type LagMixedOutcome struct {
 // reads again. A slow member is still a member: it is owed every relay
 // exactly once and in each sender's order (C02), the latest pose (C11), and
 // its view equals what a newcomer is handed (C01).
-func LagMixedTrial(p *sut.Proc, flood, size int) (out *LagMixedOutcome) {
-	out = &LagMixedOutcome{Received: map[string]int{}, Phases: map[string]float64{}, Desc: fmt.Sprintf("lag+senders: a member stops reading until %d-byte custom relays jam the pipeline towards it; two other members then relay customs, an entity add and pose updates; it resumes", size)}
+func LagMixedTrial(p *sut.Proc, flood, size int, addressed bool) (out *LagMixedOutcome) {
+	out = &LagMixedOutcome{Received: map[string]int{}, Phases: map[string]float64{}, Desc: fmt.Sprintf("lag+senders: a member stops reading until %d-byte custom relays (addressed to it and one other member: %v) jam the pipeline towards it; other members then relay customs, an entity add, pose updates and addressed messages, one addressee leaves, one member switches session, one closes, an outsider creates a session; it resumes", size, addressed)}
 	lf := func(props []string, clause, format string, a ...any) *check.Finding {
 		return &check.Finding{Props: props, Clause: clause, Trigger: "lagging-member/several-senders", Detail: out.Desc + ": " + fmt.Sprintf(format, a...), Engine: "E4 lagging member, several senders"}
 	}
 	defer func() {
 		if r := recover(); r != nil {
 			if !p.Alive() {
-				out.Findings = append(out.Findings, lf([]string{"C08", "C02"}, "process/exited", "the server process ended: %s\n%s", p.ExitInfo(), p.CrashHead(4000)))
+				out.Findings = append(out.Findings, lf([]string{"C08", "C02", "C09", "C03"}, "process/exited", "the server process ended: %s\n%s", p.ExitInfo(), p.CrashHead(4000)))
 				return
 			}
 			out.Inconclusive = fmt.Sprint("lag+senders trial: ", r)
@@ -72,7 +72,30 @@ func LagMixedTrial(p *sut.Proc, flood, size int) (out *LagMixedOutcome) {
 	lag.SetReadBuffer(256 << 10) // (well above the loopback segment size: a smaller window makes the drain crawl)
 	_, _, err = lag.Join(a.SID)
 	must(err)
+	// further actors of the stall: an addressee that leaves without a leave
+	// relay (its own flag) while an addressed message to it is held up; a
+	// member that switches session; a member that closes; an outsider
+	var rs []*scen.C
+	var addressees []uint32
+	for i := 0; i < 3; i++ {
+		r, err := scen.Dial(p, "", "DISABLE_PARTICIPANT_LEAVE_BROADCAST")
+		must(err)
+		defer r.Close()
+		_, _, err = r.Join(a.SID)
+		must(err)
+		rs = append(rs, r)
+	}
+	t := join(a.SID)
+	defer t.Close()
+	q := join(a.SID)
+	defer q.Close()
+	outsider := scen.MustDial(p, "")
+	defer outsider.Close()
 	all := []*scen.C{a, b, ps, w, lag}
+	for _, c := range append([]*scen.C{t, q, outsider}, rs...) {
+		_, err := c.Barrier()
+		must(err)
+	}
 	for _, c := range all {
 		_, err := c.Barrier()
 		must(err)
@@ -92,7 +115,13 @@ func LagMixedTrial(p *sut.Proc, flood, size int) (out *LagMixedOutcome) {
 		body := make([]byte, size)
 		for i := 1; i <= flood; i++ {
 			copy(body, fmt.Sprintf("A%07d|", i))
-			if err := a.Custom(body); err != nil {
+			var to []uint32
+			if addressed {
+				// relayed outside the session's participant lock: nothing else of the
+				// session waits behind the held-up relayer
+				to = []uint32{lag.PID, w.PID}
+			}
+			if err := a.Custom(body, to...); err != nil {
 				floodDone <- err
 				return
 			}
@@ -129,6 +158,29 @@ func LagMixedTrial(p *sut.Proc, flood, size int) (out *LagMixedOutcome) {
 	out.Flooded = last
 	out.Phases["until_jam"] = time.Since(t0).Seconds()
 	out.Jammed = !finished && still >= 8
+	// addressed messages to the lagging member first and to r second: the
+	// relayer is held up between the two while r leaves and is torn down
+	const nc = 5
+	addressees = []uint32{lag.PID}
+	for _, r := range rs {
+		addressees = append(addressees, r.PID)
+	}
+	for i := 1; i <= nc; i++ {
+		must(b.Custom([]byte(fmt.Sprintf("C%07d|", i)), addressees...))
+	}
+	// (a second relayer held up the same way: each holds its own list of addressees)
+	must(ps.Custom([]byte("D0000001|"), addressees...))
+	time.Sleep(100 * time.Millisecond)
+	gone := 0
+	for _, r := range rs {
+		r.Close()
+	}
+	for _, r := range rs {
+		if ok, _ := scen.Departed(p, r, 2*time.Second); ok {
+			gone++
+		}
+	}
+	out.Phases["addressees_torn_down_during_stall"] = float64(gone)
 	// the other senders act now (nothing is awaited: their handlers wait for room too)
 	const nb = 5
 	for i := 1; i <= nb; i++ {
@@ -141,9 +193,36 @@ func LagMixedTrial(p *sut.Proc, flood, size int) (out *LagMixedOutcome) {
 		must(err)
 		time.Sleep(60 * time.Millisecond) // several frames apart
 	}
+	// a member switches to a session of its own; another one closes
+	tJoin := t.NextReqID()
+	must(t.Send(&hagallpb.ParticipantJoinRequest{Type: d.TJoinReq, Timestamp: d.NewTag(), RequestId: tJoin}))
+	q.Close()
+	// somebody who has nothing to do with this session creates one of its own:
+	// answered, whatever stalls here (C03)
+	outsider.Timeout = 5 * time.Second
+	oj, _, oerr := outsider.Join("")
+	outsiderServed := oerr == nil && oj != nil
 	time.Sleep(300 * time.Millisecond)
 	resumed = true
 	lag.ResumeReading()
+	if !outsiderServed {
+		// not answered for five seconds while the other session stalled: decided
+		// by what happens once the stall is over
+		outsider.Timeout = 20 * time.Second
+		oj2, _, err2 := outsider.Join("")
+		late := false
+		for _, e := range outsider.LogCopy() {
+			if _, ok := e.M.(*hagallpb.ParticipantJoinResponse); ok {
+				late = true
+			}
+		}
+		if late || (err2 == nil && oj2 != nil) {
+			out.Findings = append(out.Findings, lf([]string{"C03", "C08"}, "isolation/creation-blocked-by-another-sessions-stall", "while a member of one session did not read and other members of that session were leaving it, a connection outside that session got no answer to the creation of a session of its own for 5 s (%v); it was answered once the stalled member read again", oerr))
+			return
+		}
+		out.Inconclusive = fmt.Sprint("lag+senders trial: the outsider's join failed: ", oerr, err2)
+		return
+	}
 	select {
 	case err := <-floodDone:
 		if err != nil {
@@ -157,7 +236,7 @@ func LagMixedTrial(p *sut.Proc, flood, size int) (out *LagMixedOutcome) {
 	}
 	for _, c := range all {
 		if _, err := c.Barrier(); err != nil {
-			out.Findings = append(out.Findings, lf([]string{"C02", "C08"}, "lag/member-lost", "a member's connection failed after the lagging member had resumed (far before any timeout): %v", err))
+			out.Findings = append(out.Findings, lf([]string{"C02", "C08", "C09"}, "lag/member-lost", "a member's connection failed after the lagging member had resumed (far before any timeout): %v", err))
 			return
 		}
 	}
@@ -242,6 +321,68 @@ func LagMixedTrial(p *sut.Proc, flood, size int) (out *LagMixedOutcome) {
 		}
 		if lastPose != 1003 {
 			out.Findings = append(out.Findings, lf([]string{"C11", "C01", "C02"}, "pose/latest-never-relayed", "the owner's last pose update of entity %d (px 1003) was sent while the pipeline towards the lagging member was full (%v); after everything drained and more than 20 frames passed, the last pose the %s was relayed is px %v", pe, out.Jammed, obs.name, lastPose))
+		}
+	}
+	// the member that switched: answered, and once it is told it is in its new
+	// session nothing of the old one reaches it any more
+	t.Timeout = 30 * time.Second
+	if _, err := t.Barrier(); err != nil {
+		out.Findings = append(out.Findings, lf([]string{"C02", "C08"}, "lag/member-lost", "the member that switched session during the stall: %v", err))
+		return
+	}
+	joined := false
+	for _, e := range t.LogCopy() {
+		if jr, ok := e.M.(*hagallpb.ParticipantJoinResponse); ok && jr.RequestId == tJoin {
+			joined = true
+			continue
+		}
+		if !joined || e.M == nil {
+			continue
+		}
+		switch m := e.M.(type) {
+		case *hagallpb.CustomMessageBroadcast, *hagallpb.EntityAddBroadcast, *hagallpb.EntityUpdatePoseBroadcast, *hagallpb.EntityDeleteBroadcast, *hagallpb.ParticipantLeaveBroadcast, *hagallpb.ParticipantJoinBroadcast:
+			out.Findings = append(out.Findings, lf([]string{"C01", "C02", "C03"}, "relay/reaches-former-member", "a member switched to a session of its own while a relay of its old session was held up by the lagging member; after the answer to its join it was still sent %v (a relay of the session it had left)", m))
+			return
+		}
+	}
+	if !joined {
+		out.Findings = append(out.Findings, lf([]string{"C04", "C07"}, "lag/request-unanswered", "the session switch made during the stall was never answered"))
+		return
+	}
+	// the addressed messages: the lagging member has each exactly once, in order
+	next, got := 1, 0
+	for _, e := range lag.LogCopy() {
+		if m, ok := e.M.(*hagallpb.CustomMessageBroadcast); ok && len(m.Body) > 8 && m.Body[0] == 'C' {
+			var k int
+			fmt.Sscanf(string(m.Body[1:8]), "%d", &k)
+			if k != next {
+				out.Findings = append(out.Findings, lf([]string{"C14", "C02"}, "custom/addressed-delivery", "the lagging member received addressed message %d where %d was due", k, next))
+				return
+			}
+			next++
+			got++
+		}
+	}
+	dGot := 0
+	for _, e := range lag.LogCopy() {
+		if m, ok := e.M.(*hagallpb.CustomMessageBroadcast); ok && len(m.Body) > 8 && m.Body[0] == 'D' {
+			dGot++
+		}
+	}
+	if dGot != 1 {
+		out.Findings = append(out.Findings, lf([]string{"C14", "C02"}, "custom/addressed-delivery", "the lagging member received the second relayer's addressed message %d times (want 1)", dGot))
+		return
+	}
+	if got != nc {
+		out.Findings = append(out.Findings, lf([]string{"C14", "C02"}, "custom/addressed-delivery", "the lagging member received %d of the %d messages addressed to it and to members that left meanwhile", got, nc))
+		return
+	}
+	for _, c := range []*scen.C{w, a, ps} {
+		for _, e := range c.LogCopy() {
+			if m, ok := e.M.(*hagallpb.CustomMessageBroadcast); ok && len(m.Body) > 8 && m.Body[0] == 'C' {
+				out.Findings = append(out.Findings, lf([]string{"C14"}, "custom/addressed-delivery", "participant %d, not an addressee, received an addressed message", c.PID))
+				return
+			}
 		}
 	}
 	// what a newcomer is handed has the latest pose too
